@@ -397,13 +397,28 @@ def build(tier):
     vf.add("    // E9: `impl Iterator for LifetimeTransitivityIterator { type Item = Lifetime; fn next }` emitted as an inherent method\n    #[verifier::exec_allows_no_decreases_clause]\n")
     vf.add_piece(p, expected="next")
     vf.add("}\n")
+    # ---- the two public entry points: direction flag and start node handed to the iterator
+    vf.add("impl LifetimeEnv {\n")
+    for fn, flag, doc in [("all_longer_lifetimes", "true", "lifetimes that must outlive `lt`: follow the `longer` edges"),
+                          ("all_shorter_lifetimes", "false", "lifetimes `lt` must outlive: follow the `shorter` edges")]:
+        p = Piece(src, src.item(f"impl LifetimeEnv::{fn}", "fn"))
+        p.sub("E11", r"lt: impl Borrow<Lifetime>", "lt: &Lifetime", count=1, why="`impl Borrow<Lifetime>` instantiated at &Lifetime (callers pass &Lifetime or Lifetime; Borrow::borrow is the identity view)")
+        p.sub("E11", r"\*lt\.borrow\(\)", "*lt", count=1, why="Borrow::borrow on &Lifetime")
+        p.sub("E9", r"impl Iterator<Item = Lifetime> \+ '_", "LifetimeTransitivityIterator<'_>", count=1, why="opaque return type written out")
+        p.contract(f"""        requires env_wf(self), lt.0 < self.num_lifetimes,
+        ensures {CANARY}
+            // {doc}
+            r.inv(), r.env == self, r.longer == {flag}, r.queue@ == seq![lt.0],
+            forall|i: int| 0 <= i < r.visited@.len() ==> !r.visited@[i],""", ret_name="r")
+        vf.add_piece(p, expected=fn)
+    vf.add("}\n")
     vf.add(LEMMAS)
     vf.expected += ["lemma_closed_contains_reach", "lemma_reach_step", "collect_all"]
     vf.add(vhelp.FOOTER)
     return vf
 
 
-CANARY_FUNCTIONS = ["new", "next"]
+CANARY_FUNCTIONS = ["new", "next", "all_longer_lifetimes", "all_shorter_lifetimes"]
 ASSUMPTIONS = [
     "A-smallvec: SmallVec<[T; N]> replaced by Vec<T> (same API subset: get, iter, extend/push; inline capacity not observable)",
     "A-iter (E7): Vec::extend(iter.map(f)) == for x in iter { push(f(x)) }",
